@@ -197,6 +197,86 @@ def Op.isPopv : Op → Bool
   | .popv _ _ => true
   | _ => false
 
+theorem walk_sound (t : Tab) (name : Name) (chain : List Int) (k : Key) (e : Entry) (h : walk t name chain = some (k, e)) :
+    tfind t k = some e := by
+  induction chain with
+  | nil => simp [walk] at h
+  | cons hd r ih =>
+    simp only [walk] at h
+    split at h
+    · rename_i e' he
+      simp only [Option.some.injEq, Prod.mk.injEq] at h
+      obtain ⟨rfl, rfl⟩ := h
+      exact he
+    · exact ih h
+
+/-- what `findNode` returns is an entry of the table it leaves behind -/
+theorem findNode_sound (st : St) (n : Name) (k : Key) (e : Entry) (h : (findNode st n).2 = some (k, e)) :
+    tfind st.tab k = some e := by
+  unfold findNode at h
+  simp only at h
+  cases hg : getSymSection st (chkTmp3Ref st n) with
+  | invName => rw [hg] at h; simp at h
+  | invSection => rw [hg] at h; simp at h
+  | plain n' =>
+    rw [hg] at h
+    simp only at h
+    by_cases hf : fwdOverride st (fold st.cs n') = true
+    · simp only [hf, if_true, Option.map_eq_some_iff] at h
+      obtain ⟨e', he, hk⟩ := h
+      simp only [Prod.mk.injEq] at hk
+      obtain ⟨rfl, rfl⟩ := hk
+      exact he
+    · simp only [hf] at h
+      exact walk_sound _ _ _ _ _ h
+  | sect n' h' =>
+    rw [hg] at h
+    simp only [Option.map_eq_some_iff] at h
+    obtain ⟨e', he, hk⟩ := h
+    simp only [Prod.mk.injEq] at hk
+    obtain ⟨rfl, rfl⟩ := hk
+    exact he
+
+/-- POPV never changes a constant: a destination that is not changeable is refused unless the saved value is the one it has -/
+theorem popSymbol_constPres (st : St) (sym stk : Name) : ConstPres st.tab (popSymbol st sym stk).tab := by
+  unfold popSymbol
+  have htab := findNode_tab st sym
+  have hs := findNode_sound st sym
+  cases hf : findNode st sym with
+  | mk st1 r =>
+    rw [hf] at htab hs
+    simp only at htab hs ⊢
+    cases r with
+    | none => simp only [St.err]; rw [htab]; exact ConstPres.refl _
+    | some ke =>
+      obtain ⟨key, e⟩ := ke
+      have hke := hs key e rfl
+      simp only
+      cases hst : getStack st1.stacks (stackNameOf st1 stk) with
+      | nil => simp only [St.err]; rw [htab]; exact ConstPres.refl _
+      | cons v0 rest =>
+        simp only
+        by_cases hc : e.changeable = false ∧ e.val ≠ v0
+        · rw [if_pos hc]; simp only [St.err]; rw [htab]; exact ConstPres.refl _
+        · rw [if_neg hc]
+          intro k v hk
+          simp only [ConstAt] at hk ⊢
+          by_cases hkk : k = key
+          · subst hkk
+            rw [hke] at hk
+            simp only [Option.some.injEq] at hk
+            have hch : e.changeable = false := by rw [hk]
+            have hv : e.val = v0 := by
+              by_cases hv : e.val = v0
+              · exact hv
+              · exact absurd ⟨hch, hv⟩ hc
+            rw [tfind_tset_same]
+            subst hk
+            simp only at hv
+            simp only [hv]
+          · rw [htab, tfind_tset_other _ _ _ _ hkk]
+            exact hk
+
 theorem step_constPres (st : St) (op : Op) (h : op.isPopv = false) : ConstPres st.tab (step st op).tab := by
   cases op with
   | section_ n => simp only [step]; rw [codeSection_tab]; exact ConstPres.refl _
@@ -223,6 +303,28 @@ theorem run_constPres (st : St) (ops : List Op) (h : ∀ op ∈ ops, op.isPopv =
   | cons op r ih =>
     simp only [run, List.foldl]
     exact ConstPres.trans (step_constPres st op (h op (by simp))) (ih (step st op) (fun o ho => h o (by simp [ho])))
+
+theorem foldl_popSymbol_constPres (k : Name) (syms : List Name) (st : St) :
+    ConstPres st.tab (syms.foldl (fun s x => popSymbol s x k) st).tab := by
+  induction syms generalizing st with
+  | nil => exact ConstPres.refl _
+  | cons x r ih => exact ConstPres.trans (popSymbol_constPres st x k) (ih (popSymbol st x k))
+
+/-- every statement, POPV included, leaves every constant as it is -/
+theorem step_constPres_all (st : St) (op : Op) : ConstPres st.tab (step st op).tab := by
+  cases hp : op.isPopv with
+  | false => exact step_constPres st op hp
+  | true =>
+    cases op with
+    | popv k syms => simp only [step]; exact foldl_popSymbol_constPres k syms { st with line := st.line + 1 }
+    | _ => simp [Op.isPopv] at hp
+
+theorem run_constPres_all (st : St) (ops : List Op) : ConstPres st.tab (run st ops).tab := by
+  induction ops generalizing st with
+  | nil => exact ConstPres.refl _
+  | cons op r ih =>
+    simp only [run, List.foldl]
+    exact ConstPres.trans (step_constPres_all st op) (ih (step st op))
 
 /-! ### PUSHV/POPV stacks -/
 
